@@ -1328,6 +1328,63 @@ fn wake_send_waiters<T>(waiters: &mut LinkedList<SendWaitQueueEntry<T>>) {''',
                 } else {
                     // For throughput improvement purposes, check immediately""",
      'expect': {'C07': ['C07.R5']}},
+    # ---------------------------------------------------------------- found by the line-level mutation sweep (second pass)
+    {'name': 'list-is-empty-negated', 'file': 'src/intrusive_double_linked_list.rs',
+     'old': '    pub fn is_empty(&self) -> bool {\n        if !self.head.is_none() {',
+     'new': '    pub fn is_empty(&self) -> bool {\n        if !(!self.head.is_none()) {',
+     'expect': {'C20': ['C20.R2', 'C20.R5']}},
+    {'name': 'list-remove-nonmember-assert-flipped', 'file': 'src/intrusive_double_linked_list.rs',
+     'old': '                if self.head != Some(node.into()) {\n                    debug_assert!(node.next.is_none());',
+     'new': '                if self.head != Some(node.into()) {\n                    debug_assert!(node.next.is_some());',
+     'expect': {'C20': ['C20.R5']}},
+    {'name': 'list-drain-does-not-advance', 'file': 'src/intrusive_double_linked_list.rs',
+     'old': '                let node_ref = node.as_mut();\n                current = node_ref.next;',
+     'new': '                let node_ref = node.as_mut();',
+     'expect': {'C20': ['C20.R1']}},
+    {'name': 'heap-safe-lesser-keeps-bomb', 'file': 'src/intrusive_pairing_heap.rs',
+     'old': '    let ordering = a < b;\n    mem::forget(bomb);',
+     'new': '    let ordering = a < b;',
+     'expect': {'C20': ['C20.R3']}},
+    {'name': 'heap-is-root-negated', 'file': 'src/intrusive_pairing_heap.rs',
+     'old': '    fn is_root(&self) -> bool {\n        if self.parent.is_none() {',
+     'new': '    fn is_root(&self) -> bool {\n        if !(self.parent.is_none()) {',
+     'expect': {'C20': ['C20.R5', 'C20.R2']}},
+    {'name': 'heap-last-child-does-not-advance', 'file': 'src/intrusive_pairing_heap.rs',
+     'old': '    while let Some(next) = cur.as_ref().next {\n        cur = next;',
+     'new': '    while let Some(next) = cur.as_ref().next {',
+     'expect': {'C20': ['C20.R2']}},
+    {'name': 'heap-merge-children-assert-flipped', 'file': 'src/intrusive_pairing_heap.rs',
+     'old': '    let common_parent = first_child.as_ref().parent;\n    debug_assert!(common_parent.is_some());',
+     'new': '    let common_parent = first_child.as_ref().parent;\n    debug_assert!(common_parent.is_none());',
+     'expect': {'C20': ['C20.R5']}},
+    {'name': 'mpmc-clear-does-not-pop', 'file': 'src/channel/mpmc.rs',
+     'old': '        while !self.buffer.is_empty() {\n            self.buffer.pop();',
+     'new': '        while !self.buffer.is_empty() {',
+     'expect': {'C08': ['C08.R2']}},
+    {'name': 'mpmc-sender-clone-guard-negated', 'file': 'src/channel/mpmc.rs',
+     'old': '                    self.inner.senders.fetch_add(1, Ordering::Relaxed);\n                if old_size > (core::isize::MAX) as usize {',
+     'new': '                    self.inner.senders.fetch_add(1, Ordering::Relaxed);\n                if !(old_size > (core::isize::MAX) as usize) {',
+     'expect': {'C11': ['C11.R5']}},
+    {'name': 'mpmc-shared-stream-starts-terminated', 'file': 'src/channel/mpmc.rs',
+     'old': '                    future: None,\n                    is_terminated: false,',
+     'new': '                    future: None,\n                    is_terminated: true,',
+     'expect': {'C17': ['C17.R6']}},
+    {'name': 'mpmc-stream-does-not-create-future', 'file': 'src/channel/mpmc.rs',
+     'old': '                if mut_self.future.is_none() {\n                    mut_self.future.replace(channel.receive());',
+     'new': '                if mut_self.future.is_none() {',
+     'expect': {'C01': ['C01.P']}},
+    {'name': 'close-status-predicate-flipped', 'file': 'src/channel/channel_future.rs',
+     'old': '        match self {\n            Self::NewlyClosed => true,',
+     'new': '        match self {\n            Self::NewlyClosed => false,',
+     'expect': {'C11': ['C11.R7']}},
+    {'name': 'timer-expire-loop-without-remove', 'file': 'src/timer/timer.rs',
+     'old': '                // Remove the expired timer\n                self.waiters.remove(entry);',
+     'new': '                // Remove the expired timer',
+     'expect': {'C01': ['C01.I1']}},
+    {'name': 'arraybuf-drop-loop-keeps-size', 'file': 'src/buffer/ring_buffer.rs',
+     'old': '            self.recv_idx = self.next_idx(self.recv_idx);\n            self.size -= 1;',
+     'new': '            self.recv_idx = self.next_idx(self.recv_idx);',
+     'expect': {'C19': ['C19.R1']}},
 ]
 
 ALLP = ['C01','C02','C03','C04','C05','C06','C07','C08','C09','C10','C11','C12','C13','C14','C15','C17','C18','C19','C20']
